@@ -192,8 +192,8 @@ Record WF_ad (s : mstate) : Prop := {
 Definition WF (s : mstate) : Prop := WF_core s /\ WF_ad s.
 
 (* dirtyLocked's loop: [done] = the keys already copied *)
-Definition loop_inv (s : mstate) (f : frame) (done : list Z) : Prop :=
-  f_rd_m f = read_m s /\ amended s = false /\ read_m s !! key_of (f_call f) = None /\
+Definition loop_inv (s : mstate) (rdm : gmap Z nat) (key : Z) (done : list Z) : Prop :=
+  rdm = read_m s /\ amended s = false /\ read_m s !! key = None /\
   exists d, dirty s = Some d /\
     (forall k e, read_m s !! k = Some e -> k ∈ done -> d !! k = if is_exp s e then None else Some e) /\
     (forall k e, d !! k = Some e -> k ∈ done /\ read_m s !! k = Some e).
@@ -207,25 +207,27 @@ Definition WFL (s : mstate) (f : frame) : Prop :=
   | CsUnexp => WF_ad s /\ read_m s !! key_of (f_call f) = f_e f
   | CsStoreLocked => WF_ad s /\ exists e, f_e f = Some e /\ is_exp s e = false
   | CsDirtyRead => WF_ad s /\ dirty s = None /\ read_m s !! key_of (f_call f) = None
-  | CsLoop => loop_inv s f (f_visited f)
+  | CsLoop => loop_inv s (f_rd_m f) (key_of (f_call f)) (f_visited f)
   | CsLoopCur => exists vis, f_visited f = f_curk f :: vis /\ f_curk f ∉ vis /\
-                             f_rd_m f !! f_curk f = f_e f /\ loop_inv s f vis
-  | CsAmend => loop_inv s f (f_visited f) /\ forall k e, read_m s !! k = Some e -> k ∈ f_visited f
+                             f_rd_m f !! f_curk f = f_e f /\ loop_inv s (f_rd_m f) (key_of (f_call f)) vis
+  | CsAmend => loop_inv s (f_rd_m f) (key_of (f_call f)) (f_visited f) /\ forall k e, read_m s !! k = Some e -> k ∈ f_visited f
   end.
 
 (* what a thread that does not hold the lock may do to the state: entry
    pointers change between nil and values only *)
-Record rely (s s' : mstate) : Prop := {
+Record sim (s s' : mstate) : Prop := {
   rl_next : next_e s' = next_e s;
   rl_read : read_m s' = read_m s;
   rl_am : amended s' = amended s;
   rl_dirty : dirty s' = dirty s;
-  rl_misses : misses s' = misses s;
   rl_exp : forall e, is_exp s' e = is_exp s e
 }.
+Definition rely (s s' : mstate) : Prop := sim s s' /\ misses s' = misses s.
 
-Lemma rely_refl s : rely s s.
+Lemma sim_refl s : sim s s.
 Proof. constructor; reflexivity. Qed.
+Lemma rely_refl s : rely s s.
+Proof. split; [apply sim_refl|reflexivity]. Qed.
 
 Lemma get_ent_set_ent s e p e0 :
   get_ent (set_ent s e p) e0 = if decide (e0 = e) then p else get_ent s e0.
@@ -244,7 +246,7 @@ Qed.
 
 Lemma rely_put_ent i e p : is_exp (i_st i) e = false -> p <> PExpunged -> rely (i_st i) (i_st (put_ent i e p)).
 Proof.
-  intros He Hp. constructor; try reflexivity. intros e0. cbn. rewrite is_exp_set_ent.
+  intros He Hp. split; [|reflexivity]. constructor; try reflexivity. intros e0. cbn. rewrite is_exp_set_ent.
   destruct (decide (e0 = e)) as [->|]; [|reflexivity].
   rewrite He. apply bool_decide_eq_false. exact Hp.
 Qed.
